@@ -382,6 +382,14 @@ func checkC19Model(c *Ctx, n int) {
 	for i := 0; i < n; i++ {
 		g := &gen{r: c.Rng, p: p}
 		cs := g.genCase()
+		if g.chance(0.35) {
+			for bi := range cs.Build {
+				if cs.Build[bi].Struct != nil && g.collideDuplicate(cs.Build[bi].Struct) {
+					c.Class("c19/deliberate-cross-group-duplicate")
+					break
+				}
+			}
+		}
 		g.addProgrammatic(cs)
 		cs.Ops = []Op{{Kind: "model"}, {Kind: "parse", Args: []string{}}}
 		cs.Description = describeOps(cs)
